@@ -97,6 +97,47 @@ CLAIMS = {
               "reference outcomes incl. payload drop counts; known finding F10."),
         ref="DESIGN.md §3 C11",
         technique="Lean 4 refinement lemmas for the Arc object + reference outcomes + decision replay"),
+    "C13": dict(
+        text=("Lean 4: Ckpt roundtrip (Path.ofJson cap p.toJson = some {p with cap} for EVERY path), step_resets, "
+              "run_depends_on_path_only, resume_suffix (a run resumed from the decoded checkpoint stored before iteration "
+              "k+1 produces exactly the remaining iterations, also with iteration numbers restarting), "
+              "failing_checkpoint_reproduces, checkpoint_cadence. Tie: same model twice / two processes / twin; for every "
+              "stop point k stop (max_permutations) + resume must concatenate to the uninterrupted run; checkpoint file "
+              "bytes = the twin's Path.render. F14 (thread-local destructor order) is not yet exercised."),
+        ref="DESIGN.md §3 C13",
+        technique="Lean 4 proofs over the Builder::check loop and the checkpoint codec + stop/resume differential runs"),
+    "C15": dict(
+        text=("Lean 4 (all reachable paths): preemptions_counts (loom's stored counter = number of earlier switches away "
+              "from a thread that could continue), bound_invariant (preemptionsNow ≤ n everywhere; entries at the bound "
+              "gain no alternatives), C15_each_execution_bounded, large_bound_never_cuts, assertion unreachable. "
+              "Soundness/monotonicity of result sets across bounds 0..6/∞ is evaluated per program (chain and equality "
+              "for large n) together with an independent recount of preemptions; explorer-twin correspondence per "
+              "bound. Known finding F1 breaks 'bounded ⊆ unbounded'."),
+        ref="DESIGN.md §3 C15",
+        technique="Lean 4 invariants of the preemption counter + per-bound twin correspondence + result-set chain evaluation"),
+    "C16": dict(
+        text=("The twin is stateless by construction (Lean: step_resets, init_fresh, run_depends_on_path_only — thin); the "
+              "substance is the correspondence: every program's full record (paths, clocks, thread and object tables of "
+              "every iteration) must be identical alone in a fresh process, after all other programs in two orders "
+              "(also after failing models), on 8 OS threads running models concurrently, and on the twin."),
+        ref="DESIGN.md §3 C16",
+        technique="Lean 4 reset theorems (thin) + differential runs across process histories and concurrent OS threads"),
+    "C18": dict(
+        text=("Lean 4: Sched.yield_deprioritised (a yielded thread is chosen only if nothing is runnable; never becomes a "
+              "backtrack alternative), yield_reactivated, Atomic.seen_before_yield_prune, Path.branch_limit. Progress "
+              "and exit-outcome completeness are evaluated on await-loop families against the blocking-read reference; "
+              "unsatisfiable loops must hit the branch limit; explorer-twin correspondence."),
+        ref="DESIGN.md §3 C18",
+        technique="Lean 4 scheduler/yield laws + await-loop families vs blocking-read reference + twin correspondence"),
+    "C19": dict(
+        text=("Lean 4: nonexploring_frozen (entries created in a non-exploring region are never advanced or marked, along "
+              "whole runs), control decision tables, skip_sticky, outside_unaffected (step = step of the exploring part), "
+              "branch_limit_exact / thread_limit_exact (iff), permutation_limit_run (exact iteration count, ends without "
+              "failure at the first checkpoint boundary ≥ max). Tie: regions at every placement, limit sweeps need-1 / "
+              "need / need+1, permutation limits around interval multiples; twin correspondence; subset of unrestricted "
+              "results."),
+        ref="DESIGN.md §3 C19",
+        technique="Lean 4 proofs of control/limit logic + placement and off-by-one sweeps + twin correspondence"),
     "C14": dict(
         text=("Machine-checked proof (Lean 4) over the model of rt/path.rs for ALL paths and iterations: step_spec, "
               "frame lemmas for every Path API call, no_repeat (decision vectors pairwise distinct), dfs_order, "
